@@ -103,6 +103,22 @@ def confirm(pid, name):
         print("--", k, "rc=%s" % st[k]["rc"]); print(st[k]["tail"][-400:])
 
 
+def reapply(pid, name):
+    """fresh worktree at /repo HEAD with the (rebased, if present) patch applied; no demo, no tests."""
+    out, seedwt, wt = paths(pid, name)
+    st = state(out)
+    fresh(wt)
+    patch = os.path.join(out, "patch.rebased.diff")
+    if not os.path.exists(patch):
+        patch = os.path.join(out, "patch.diff")
+    rc, o = sh("git apply " + patch, cwd=wt)
+    rc2, o2 = sh("git rev-parse --short=10 HEAD", cwd=wt)
+    st["reapply"] = {"rc": rc, "out": o[-300:], "patch": os.path.basename(patch), "head": o2.strip()}
+    save(out, st)
+    print("reapply", pid, "rc", rc, o[-200:], "head", o2.strip())
+    return rc
+
+
 def detect(pid, name, checks, tier):
     out, seedwt, wt = paths(pid, name)
     st = state(out)
@@ -148,6 +164,8 @@ if __name__ == "__main__":
         i = a.index("--name"); name = a[i + 1]; del a[i:i + 2]
     if a[0] == "confirm":
         confirm(a[1], name)
+    elif a[0] == "reapply":
+        sys.exit(reapply(a[1], name))
     elif a[0] == "detect":
         detect(a[1], name, a[2], a[3] if len(a) > 3 else "quick")
     elif a[0] == "keep":
